@@ -375,6 +375,10 @@ type finding struct {
 	Status      string `json:"status"` // known | fixed
 	ClassRegex  string `json:"class_regex,omitempty"`
 	DetailRegex string `json:"detail_regex,omitempty"`
+	// RaceFrame: a known finding that is a data race is identified by a call
+	// site: a race report with this function in one of its stacks gets the
+	// class "<prop>/race:via <frame>" instead of the pair of first functions
+	RaceFrame string `json:"race_frame,omitempty"`
 	Commit      string `json:"commit,omitempty"`
 	What        string `json:"what"`
 }
@@ -473,6 +477,11 @@ func crashClass(prop, stderr string) (string, string) {
 		rep := stderr[i:]
 		if j := strings.Index(rep, "=================="); j > 0 {
 			rep = rep[:j]
+		}
+		for _, f := range loadFindings() {
+			if f.Property == prop && f.Status == "known" && f.RaceFrame != "" && strings.Contains(rep, "/"+f.RaceFrame+"()") {
+				return prop + "/race:via " + f.RaceFrame, rep
+			}
 		}
 		// first b6 frame of each of the two stacks
 		parts := strings.Split(rep, "\n\n")
